@@ -103,6 +103,8 @@ Definition oracle_failures_t (t : optable) : list F :=
   | Some r =>
       fails t "opmap entry not in CPython's opmap" (opmap_subset (t_opmap t) (fix_pairs (r_opmap r)))
       +++ fails t "CPython opmap entry missing" (opmap_subset (fix_pairs (r_opmap r)) (t_opmap t))
+      (* the name dis prints: opname[n], spelled as CPython spells it ('SLICE+1' keeps its '+'; only opmap's keys are normalised) *)
+      +++ fails t "opname[n] is not CPython's name of n" (map snd (filter (fun '(nm, n) => negb (String.eqb (opname_of t n) nm)) (r_opmap r)))
       +++ fail_if t "HAVE_ARGUMENT" (t_have_argument t =? r_have_argument r)%Z
       +++ fail_if t "EXTENDED_ARG" (t_extended_arg t =? r_extended_arg r)%Z
       +++ flat_map (fun '(cat, l) => match sassoc cat (ref_categories r) with
